@@ -65,7 +65,9 @@ def run(res, tier):
         res.rule("SIGN-1", "in res = a - b a write from `b` alone negates, a write from `a` alone does not, a write from both is a subtraction with a before b (add family: no negation, both -> add)")
         ns = sign.check(p, res, "SIGN-1", ("poulpy_cpu_ref::reference",))
         res.floor("SIGN-1", "add/sub family functions", ns, 8)
-        res.rule("SIGN-2", "negacyclic split kernels (multiplication by X^p through copy/negate of two halves): a path writing with one polarity only is decided by the residue of p modulo 2N, not modulo N alone")
+        res.rule("SIGN-2", "negacyclic split kernels (multiplication by X^p through copy/negate of two halves): a path writing with one polarity only is decided by the residue of p modulo 2N, not modulo N alone; a function that hands a rotation exponent to a rotation kernel skips the kernel only on a test of the exponent modulo 2N")
         n2n = sign.check_negacyclic(p, res, "SIGN-2", ("poulpy_cpu_ref::reference", "poulpy_cpu_avx"))
         res.floor("SIGN-2", "negacyclic split kernels", n2n, 1)
+        nsk = sign.check_rotation_skips(p, res, "SIGN-2", ("poulpy_cpu_ref::reference", "poulpy_cpu_avx", "poulpy_core"))
+        res.floor("SIGN-2", "functions handing a rotation exponent to a rotation kernel", nsk, 4)
         res.fn_count += n_ow + n2
